@@ -257,10 +257,22 @@ def run_all(tier, seed, focus):
         "C12": "same scope; after EVERY step: write-through backing == logical contents; write-back backing differs only at resident addresses (views read off the blocks, no reads through the cache)",
         "C17": "same scope; the data-memory table equals the written words of the backing store in ascending order with the four representations of their current values",
     }[focus]
+    ops_info = None
+    if focus in ("C03", "C09", "C12"):
+        from bounded import cacheops
+        oe, ok_, ov = cacheops.run(tier, seed, focus)
+        evals += oe
+        viol = (viol + ov)[:8]
+        ops_info = {"operations": oe, "configurations": ok_,
+                    "rule": "interface-level histories (bounded/cacheops.py): 40 random reads/writes of all widths per history on the real cache systems over random small geometries, at set-conflicting, neighbouring and aliased addresses, checked after every operation against a reference byte map, a reference tag-only cache and the C12 relations"}
     return {"evaluations": evals, "distinct_nontrivial": len(seen), "violations": viol, "samples": samples or [{"note": "none sampled"}], "rule": rule,
-            "bound": "programs <= 14 instructions, <= 150 single-cycle steps", "contract": "program-level clause of " + focus}
+            "interface_histories": ops_info,
+            "bound": "programs <= 14 instructions, <= 150 single-cycle steps; interface histories of 40 operations", "contract": "program-level clause of " + focus}
 
 
 def replay(j):
+    if j.get("kind") == "cacheops":
+        from bounded import cacheops
+        return cacheops.replay(j)
     print("program:", j.get("program"), "config:", j.get("config"), "recorded:", j.get("what"))
     return False
